@@ -340,7 +340,9 @@ sys.exit(7)
 
 
 LIMIT_GRID = [(0, 0.6, True, False), (0.0, 0.6, True, False), (0, 0.6, False, False), (0.2, 2.5, True, True), (0.2, 2.5, False, False),
-              (20, 0.1, True, False), (0.0, 0.6, False, False), (0.2, 2.5, True, False)]
+              (20, 0.1, True, False), (0.0, 0.6, False, False), (0.2, 2.5, True, False),
+              # a limit that is not a whole number of seconds, the command ending between its integral part and the limit
+              (2.9, 2.3, True, False), (2.9, 2.3, False, False)]
 
 
 def limit_case(rng, res, fixed=None):
@@ -391,6 +393,15 @@ def limit_case(rng, res, fixed=None):
         m = {"returned": [m["returned"][0], "", ""]}
     agreed = i == m
     case = {"op": "limit", "limit": limit, "runs_for": dur, "record_streams": streams, "ignores_signals": ignore}
+    if limit > dur and i.get("outcome") == "TimeoutExpired":
+        # no implementation can report a time-out before the limit has passed; after it, a busy machine may be the reason
+        # (the interpreter of the command needed the difference to start): then nothing is judged
+        if elapsed < limit - 0.05:
+            res.fail("oracle", case, {"why": "reported as timed out %.2f s after the start, before the limit of %r s had passed" % (elapsed, limit),
+                                      "impl": summarise(i)})
+        else:
+            res.count("limit_case_slow_machine_not_judged")
+        return
     if limit < dur and i.get("outcome") == "TimeoutExpired" and elapsed > limit + 0.7 * (dur - limit):
         res.fail("oracle", case, {"why": "the call came back %.1f s after the start although the limit was %r s: the command was not killed "
                                          "at the limit, it was waited for" % (elapsed, limit), "impl": summarise(i)})
@@ -438,7 +449,7 @@ def shard_cli_equiv(seed, idx, n):
 
 def run(tier, seed):
     shards = [(shard_corpus, ())]
-    shards += [(shard_real, (seed, i, 3 if tier == "quick" else 40)) for i in range(8)]
+    shards += [(shard_real, (seed, i, 3 if tier == "quick" else 40)) for i in range(len(LIMIT_GRID))]
     maxp = 3 if tier == "quick" else 4
     for n in range(1, maxp + 1):
         for a in ALPHA:
